@@ -249,7 +249,11 @@ func mutateStream(r *simkit.Run, orig, other []byte) (out []byte, kind string, s
 			k = 2 + t.Intn(3)
 		}
 		for i := 0; i < k; i++ {
-			out[t.Intn(n)] ^= 1 << uint(t.Intn(8))
+			at := t.Intn(n)
+			if t.Chance(1, 5) && n > 4 { // one of the four checksum trailer bytes
+				at = n - 1 - t.Intn(4)
+			}
+			out[at] ^= 1 << uint(t.Intn(8))
 		}
 	case 2:
 		kind = "duplicate"
